@@ -24,6 +24,18 @@ PROPS = {
             leg("malformed", "c04-malformed", "rel", quick=1, thorough=4),
         ],
     ),
+    "C05": dict(
+        level="exploration",
+        technique="runtime monitor: two real connections (hook H1) on one server plus a twin server; second client's writes injected at every gap; EXEC results and keyspace compared with the twin's consecutive run; simultaneous-delivery pairs checked against both serial orders",
+        level_text="Client A runs [WATCH] MULTI body EXEC|DISCARD through the production connection handler while client B's write (none / same value / change / delete / type change / other key / change-and-revert) is run to completion in a chosen gap (before WATCH, after WATCH, after MULTI, after each queued command); an observer connection snapshots the visible keyspace after every queued command (no effect before EXEC), around DISCARD / EXECABORT / nil EXEC (untouched), and compares watched keys' values WATCH-time vs EXEC-time (value based, all key types) to decide whether EXEC had to be nil; applied EXECs are compared element by element and keyspace-wise with a twin server that ran the queued commands consecutively. The matrix watched-type x B-op x gap x DISCARD is enumerated completely; bodies (22 commands incl. failing, unknown, arity, nested MULTI, WATCH inside) are random. A second leg delivers A's EXEC and B's command/EXEC at the same instant and requires the observed results to equal serial order A;B or B;A computed on twins.",
+        level_note="trusts the twin construction (fresh ShardedActorState + same preload + B's op = same pre-EXEC state), the scripted stream, and the public protocol reads used as snapshots; key expiry is not exercised (production clock)",
+        rule="case = one transaction scenario (shards, watch set, body, DISCARD?, B-op kind, B key, gap) or one simultaneous pair (A body, B unit); distinct_nontrivial = distinct (watch count, watched types, B-op, B key type, gap class, discard, body length) tuples + distinct body command-kind sequences + distinct (A body, B unit, shards) pairs",
+        assumptions=COMMON_ASSUME + ["simultaneous delivery happens on a current-thread tokio runtime: the interleaving inside EXEC is the one the production handlers produce there, deterministically"],
+        legs=[
+            leg("txn", "c05-txn", "rel", quick=2, thorough=16),
+            leg("atomic", "c05-atomic", "rel", quick=2, thorough=8),
+        ],
+    ),
     "C15": dict(
         level="exploration",
         technique="runtime monitor: bounded-exhaustive + random inputs against both decoders under catch_unwind, a counting allocator and an independent strict RESP decoder; fragment-vs-whole replay; replies of real commands re-decoded; child-process abort detection",
